@@ -761,6 +761,21 @@ class Model:
             e.quirks.append('move-docelement-raises-hierarchy')
             if not errs:
                 e.cls = 'move-docelement'
+        if errs == {HIERARCHY} and p.t == DOC and new.t == FRAG and old.parent is p and all(k.t in KID_OK[DOC] for k in new.kids):
+            e.cls = 'fragment-exceeding-document-limits'
+            e.quirks.append('fragment-partial-insert')
+            if 'fragment-partial-insert' in self.quirk:
+                have_e = any(k.t == ELEMENT and k is not old for k in p.kids)
+                have_t = any(k.t == DOCTYPE and k is not old for k in p.kids)
+                for k in list(new.kids):
+                    if (k.t == ELEMENT and have_e) or (k.t == DOCTYPE and have_t):
+                        break
+                    self._detach(k)
+                    self._attach(p, k, old)
+                    have_e = have_e or k.t == ELEMENT
+                    have_t = have_t or k.t == DOCTYPE
+            e.codes = errs
+            return e
         if errs:
             e.codes = errs | ({HIERARCHY} if movede and 'move-docelement-raises-hierarchy' in self.quirk else set())
             return e
@@ -2546,6 +2561,8 @@ def exh_ops(reduced):
     C = [0, 1, 2, 3, 4, 5, 6, 7, 10] if not reduced else [1, 2, 3, 4, 7]
     for p in P:
         for c in C:
+            if p == 7 and c == 7:
+                continue        # a non-empty fragment appended to itself never returns (pinned special case of the check)
             ops.append(('app', None, [p, c]))
     for p in ([1, 2, 4] if not reduced else [1, 2]):
         for c in ([2, 3, 4, 5, 6, 7] if not reduced else [2, 3, 4]):
@@ -2595,7 +2612,8 @@ def exh_script(seq):
             return None
         out.append(op)
         op.kills = sorted(set(exp.kills))
-        if exp.dontcare:
+        if exp.dontcare or exp.cls in TAIL_ONLY:
+            # implementation dependent, or an operand class behind which the real tree is known to be broken: the sequence ends here
             stopped = exp.cls
             break
     return out, nset, stopped
